@@ -339,7 +339,12 @@ pub fn shard(seed: u64, shard: u64, n: u64, tier: Tier) -> Tally {
     let mut prev_sig = "f".repeat(64);
     for i in 0..n {
         let mut r = Rng::keyed(seed, "C01", "parent", shard, i);
-        let cfg0 = gen_cfg(&mut r);
+        let mut cfg0 = gen_cfg(&mut r);
+        if r.chance(1, 4) {
+            // a service with signed-header requirements (satisfied by the parent)
+            cfg0.reqs = crate::props::c05::gen_reqs(&mut r).0;
+            t.count("parents_with_requirement_sets");
+        }
         let mut l = gen_logical(&mut r, &cfg0, &GenOpts::default());
         // make sure some signed extra header with several values exists now and then
         if r.chance(1, 3) && !l.extra.is_empty() {
